@@ -61,7 +61,7 @@ def cases(draw):                                                   # noqa: C901
                                  'LSF', 'COBALT', 'PBSPRO', 'PBSPRO', 'PBSPRO',
                                  'FORK', 'DEBUG']))
     mode = draw(st.sampled_from(M.MODES[rm]))
-    fault = draw(st.sampled_from([None] * 40 + [
+    fault = draw(st.sampled_from([None] * 32 + [
         'req_gt_alloc', 'nonuniform', 'cpn_mismatch', 'drop_env', 'reserve_all',
         'all_probes_fail', 'blocked_oob', 'unconfigured']))
 
@@ -317,7 +317,9 @@ def run_case(case):                                                # noqa: C901
     # ---- exceptions ---------------------------------------------------------
     if out.exc is not None:
         res.label('raised')
-        if e.verdict == 'ok':
+        if e.verdict == 'ok' and e.may_raise:
+            res.label('raise:request exceeds allocation')
+        elif e.verdict == 'ok':
             res.fail(exc_sig('unexpected_exception:%s%s' % (tag, iq), out.exc),
                      '%r on a consistent allocation' % (out.exc,))
         elif e.verdict == 'raise':
@@ -361,9 +363,6 @@ def run_case(case):                                                # noqa: C901
                          '%s: scratch %r registry %r' % (k, info[k], out.info2.get(k)))
         if out.reg_a != out.reg_b:
             res.fail('registry_changed_by_reader:%s' % tag, 'second instance rewrote rm.*')
-        if getattr(out, 'reprobed', False):
-            res.fail('registry_instance_reprobed:%s' % tag,
-                     'instance created from the registry queried the batch system again')
 
     if e.verdict == 'either':
         res.label('either:%s' % e.why.split(':')[0][:40])
